@@ -183,7 +183,11 @@ def bkStep (st : St) (w : List String) : Option (St × String) :=
       ({ st with book := b' }, dumpBook b')
   | ["bk.delsheet", n] => (unhexS n).map fun n =>
       match Impl.deleteSheet b n with
-      | .ok b' => ({ st with book := b' }, dumpBook b')
+      | .ok b' =>
+        -- DeleteSheet also drops the relationships of the deleted sheet; `srels` is Sheet1's list
+        let gone := b.sheets.any (fun s => Impl.eqFold s.name (sl "Sheet1")) &&
+                    !(b'.sheets.any fun s => Impl.eqFold s.name (sl "Sheet1"))
+        ({ st with book := b', srels := if gone then none else st.srels }, dumpBook b')
       | .panic => (st, "PANIC")
   | ["bk.addct", i, k] => match parseInt? i, unhexS k with
     | some i, some k =>
